@@ -40,7 +40,7 @@ def _post(kind):
                 c.count("cond.draw_sample.unseeded-skipped")
                 return
             with np.errstate(all="ignore"):
-                p = ref_params(dimspec, given)
+                p = ref_params(dimspec, np.asarray(given, float) if np.ndim(given) > 0 else given)
             if np.ndim(given) > 0:
                 # n realizations per conditioning value: dependence values are per conditioning value even
                 # when the callable returns a scalar (constant)
